@@ -121,7 +121,7 @@ def run(run):
                         add(e, comp, dict(cfg, case="batch_items"))
     # --- gain statistics on >= 10^6 blocks
     NB = 1000000
-    for (kname, mk, comp, K) in kinds + [("rician", lambda T, K=K: RicianFadingChannel(k_factor=K, coherence_time=T, avg_noise_power=0.0), "RicianFadingChannel", K) for K in ((0.0, 1.0, 10.0, 100.0, 1, 5, 20) if not quick else (0.0, 10.0, 5))]:      # K as float and as Python int (the documented form)
+    for (kname, mk, comp, K) in kinds + [("rician", lambda T, K=K: RicianFadingChannel(k_factor=K, coherence_time=T, avg_noise_power=0.0), "RicianFadingChannel", K) for K in ((0.0, 1.0, 10.0, 100.0, 1, 5, 20) if not quick else (0.0, 10.0, 5, 100.0))]:      # K as float and as Python int (the documented form)
         if kname == "lognormal":
             continue        # unit mean-square gain is stated for Rayleigh and Rician fading only
         y = mk(1)(torch.ones(1000, NB // 1000))
